@@ -206,7 +206,8 @@ pub fn hcalc_decomp_small(s: &mut Src) -> R {
 // (d1 = diag(k_1..k_s) padded, d2 = diag(e_1..e_r) on the last coordinates) and scrambled by random unimodular changes of basis of C2, C1, C0.
 // Expected H_1: free rank n1 - s - r, torsion = the non-unit invariant factors of diag(k).  Checked: rank, torsion up to sign, p q = I,
 // all generators are cycles, boundaries have zero free coordinates and torsion coordinates divisible by the orders.
-pub fn hcalc_scrambled(s: &mut Src) -> R {
+/// the scrambled normal-form complex of hcalc_scrambled: (d1: n1 x n2, d2: n0 x n1, free rank f, diagonal k_1..k_s of d1)
+fn scrambled_complex(s: &mut Src) -> std::result::Result<(SpMat<num_bigint::BigInt>, SpMat<num_bigint::BigInt>, usize, Vec<i64>, (usize, usize, usize)), String> {
     use num_bigint::BigInt;
     use num_traits::{Zero, One, Signed};
     let (sd, f, r) = (s.small(0, 3) as usize, s.small(0, 2) as usize, s.small(0, 2) as usize);
@@ -215,7 +216,6 @@ pub fn hcalc_scrambled(s: &mut Src) -> R {
     let es: Vec<i64> = (0..2).map(|_| s.small(1, 3)).collect();
     let mut ops: Vec<(usize, usize, usize, i64)> = vec![];
     for _ in 0..9 { ops.push((s.small(0, 2) as usize, s.small(0, 5) as usize, s.small(0, 5) as usize, s.small(-2, 2))); }
-    reach!();
     let (n2, n1, n0) = (sd + x2, sd + f + r, r + x0);
     let bi = |x: i64| BigInt::from(x);
     type M = Vec<Vec<BigInt>>;
@@ -240,6 +240,15 @@ pub fn hcalc_scrambled(s: &mut Src) -> R {
     let sp = |m: &M, a: usize, b: usize| SpMat::from_dense_data((a, b), m.iter().flatten().cloned().collect::<Vec<_>>());
     let (a1, a2) = (sp(&d1s, n1, n2), sp(&d2s, n0, n1));
     ob!((&a2 * &a1).is_zero(), "harness::d2.d1==0");
+    Ok((a1, a2, f, ks[..sd].to_vec(), (n2, n1, n0)))
+}
+pub fn hcalc_scrambled(s: &mut Src) -> R {
+    use num_bigint::BigInt;
+    use num_traits::{Signed, Zero};
+    let (a1, a2, f, kd, (n2, n1, _n0)) = scrambled_complex(s)?;
+    reach!();
+    let bi = |x: i64| BigInt::from(x);
+    let sd = kd.len(); let ks = kd.clone();
     let (rank, tors, t) = HomologyCalc::calculate(a1.clone(), a2.clone(), true);
     ob!(rank == f, "HomologyCalc::rank==n-r1-r2");
     // invariant factors of diag(k): repeatedly (a, b) -> (gcd, lcm)
@@ -263,4 +272,31 @@ pub fn hcalc_scrambled(s: &mut Src) -> R {
     Ok(())
 }
 
-crate::harness_table!(HCALC: hcalc_small, hcalc_schur_small, hcalc_triang_small, hcalc_reducer_small, hcalc_decomp_small, hcalc_scrambled);
+// C08 on scrambled normal-form complexes (BOUNDED, sampled): ChainReducer over BigInt on C_0 --e0--> C_1 --e1--> C_2 (the complex of
+// hcalc_scrambled): d.d = 0 after reduction, homology of the middle degree unchanged, transfer maps with F B = I that are chain maps both ways.
+pub fn hcalc_reducer_scrambled(s: &mut Src) -> R {
+    use num_bigint::BigInt;
+    use num_traits::Signed;
+    use yui_homology::utils::ChainReducer;
+    use yui_homology::GenericChainComplex;
+    let (a1, a2, _f, _kd, (_n2, _n1, n0)) = scrambled_complex(s)?;
+    reach!();
+    let ds = [a1.clone(), a2.clone(), SpMat::<BigInt>::zero((0, n0))];
+    let c = GenericChainComplex::<BigInt>::generate(0..=2isize, 1, |i| ds[i as usize].clone());
+    let r = ChainReducer::reduce(&c, true);
+    let (e0, e1) = (r.matrix(0).unwrap().clone(), r.matrix(1).unwrap().clone());
+    ob!(e1.ncols() == e0.nrows(), "ChainReducer::sizes-match");
+    ob!((&e1 * &e0).is_zero(), "ChainReducer::d.d==0-after-reduction");
+    let h_before = HomologyCalc::calculate(a1.clone(), a2.clone(), false);
+    let h_after = HomologyCalc::calculate(e0.clone(), e1.clone(), false);
+    let norm = |t: &Vec<BigInt>| { let mut t: Vec<BigInt> = t.iter().map(|x| x.abs()).collect(); t.sort(); t };
+    ob!(h_before.0 == h_after.0 && norm(&h_before.1) == norm(&h_after.1), "ChainReducer::homology-unchanged");
+    let (t0, t1, t2) = (r.trans(0).unwrap(), r.trans(1).unwrap(), r.trans(2).unwrap());
+    let fb = |t: &yui_matrix::sparse::Trans<BigInt>| (&t.forward_mat() * &t.backward_mat()).into_dense() == SpMat::<BigInt>::id(t.tgt_dim()).into_dense();
+    ob!(fb(t0) && fb(t1) && fb(t2), "ChainReducer::trans::F.B==I");
+    ob!((&t1.forward_mat() * &a1).into_dense() == (&e0 * &t0.forward_mat()).into_dense() && (&t2.forward_mat() * &a2).into_dense() == (&e1 * &t1.forward_mat()).into_dense(), "ChainReducer::trans::forward-is-a-chain-map");
+    ob!((&a1 * &t0.backward_mat()).into_dense() == (&t1.backward_mat() * &e0).into_dense() && (&a2 * &t1.backward_mat()).into_dense() == (&t2.backward_mat() * &e1).into_dense(), "ChainReducer::trans::backward-is-a-chain-map");
+    Ok(())
+}
+
+crate::harness_table!(HCALC: hcalc_small, hcalc_schur_small, hcalc_triang_small, hcalc_reducer_small, hcalc_decomp_small, hcalc_scrambled, hcalc_reducer_scrambled);
